@@ -3,6 +3,7 @@ use serde_json::Value;
 
 pub type AreaFn = fn(&Value) -> Vec<Value>;
 
+mod beans;
 mod local;
 mod ows;
 mod time;
@@ -12,6 +13,7 @@ pub fn lookup(name: &str) -> Option<AreaFn> {
         "time" => Some(time::run),
         "ows" => Some(ows::run),
         "local" => Some(local::run),
+        "beans" => Some(beans::run),
         _ => None,
     }
 }
